@@ -124,6 +124,35 @@ def run(v, O):
     out.append(('units of a later product equal those of a fresh copy', O.same((A * Unit('s')).units(), (Quantity(v.a, v.ua) * Unit('s')).units())))
     return out
 '''
+ALIAS_SRC = '''
+def run(v, O):
+    # operands that are one object, or share their units object with an earlier result (results reuse the left operand's units)
+    A = Quantity(v.a, v.ua) if v.exact else Quantity(v.a, v.ua, abse=v.ea)
+    B = Quantity(v.b, v.ub) if v.exact else Quantity(v.b, v.ub, abse=v.eb)
+    a0, b0 = snap(A), snap(B)
+    out = []
+    r = A + A
+    out += same(O, 'operand after a + a', a0, snap(A))
+    S = A + B
+    s0 = snap(S)
+    r = S + A
+    out += same(O, 'left operand after (a+b) + a', a0, snap(A)) + same(O, 'sum after (a+b) + a', s0, snap(S))
+    r = S - B
+    out += same(O, 'right operand after (a+b) - b', b0, snap(B)) + same(O, 'sum after (a+b) - b', s0, snap(S))
+    r = A + S
+    out += same(O, 'operand after a + (a+b)', a0, snap(A)) + same(O, 'sum after a + (a+b)', s0, snap(S))
+    N = -A
+    n0 = snap(N)
+    r = N + A if not v.log else A + N
+    out += same(O, 'operand after combining with its negation', a0, snap(A)) + same(O, 'negation after combining with its operand', n0, snap(N))
+    if not v.log:
+        r = A * A; r = A / A; r = A - A
+        out += same(O, 'operand after a*a, a/a, a-a', a0, snap(A))
+    out.append(('a == a', O.truth(A == A)))
+    out += same(O, 'operand after a == a', a0, snap(A))
+    out.append(('a + a equals the sum of two separate copies', O.eq((A + A).value(), (Quantity(v.a, v.ua) + Quantity(v.a, v.ua)).value(), 1e-9)))
+    return out
+'''
 OPS_BIN = {
     'add': 'lambda A, B: A + B', 'sub': 'lambda A, B: A - B', 'mul': 'lambda A, B: A * B', 'div': 'lambda A, B: A / B',
     'eq': 'lambda A, B: A == B', 'radd': 'lambda A, B: B + A', 'rsub': 'lambda A, B: B - A',
@@ -205,6 +234,12 @@ def scenarios(tier, seed):
             S.append(Scenario(f'bin/{op}/log-{w}-{wb}/scalar', BIN_SRC, R, POS + (['v.a > 1000', 'v.b < 1'] if op == 'sub' else []) + (['v.b != 0'] if op == 'eq' else []),
                               consts={'op': op, 'kind': 'exact', 'ua': w, 'ub': wb, 'ur': ur if op != 'eq' else None, 'ua2': w2, 'ub2': w2},
                               preamble=PRE + f"OPS = {{{op!r}: {OPS_BIN[op]}}}\n", what=f'{op} on logarithmic operands in {w}', samples=1))
+    for ua, ub, log in (('km', 'm', False), ('J', 'J', False), ('dBm', 'dBm', True), ('dBV', 'dBV', True), ('dB', 'dB', True), ('dBA', 'dBA', True), ('Cel', 'Cel', False)):
+        for exact in ((True, False) if not log else (True,)):
+            if ua == 'Cel' and not exact:
+                continue
+            S.append(Scenario(f'alias/{ua}-{ub}/{"exact" if exact else "uncertain"}', ALIAS_SRC, {'a': 'real', 'b': 'real', 'ea': 'real', 'eb': 'real'}, ['v.ea >= 0', 'v.eb >= 0', 'v.a != 0', 'v.b != 0'] + (['v.a > 0', 'v.b > 0'] if ua == 'Cel' else []),
+                              consts={'ua': ua, 'ub': ub, 'log': log, 'exact': exact}, preamble=PRE, what=f'operations whose operands are one object or share their units with an earlier result ({ua}, {ub})', samples=2))
     for pname, (ua, ub, ur, ua2, ub2) in PAIRS.items():
         S.append(Scenario(f'inplace/{pname}', INPLACE_SRC, {'a': 'real', 'b': 'real', 'ea': 'real', 'eb': 'real', 'e2': 'real'}, POS,
                           consts={'ua': ua, 'ua2': ua2}, preamble=PRE, what=f'in-place methods change only their receiver ({ua})', samples=1))
